@@ -159,27 +159,19 @@ theorem dropPromise_ev (s : Streams) (promise : Nat) :
 
 theorem dropStreamRef_ev (s : Streams) (id : Nat) : Ev s (s.dropStreamRef id) := by
   unfold Streams.dropStreamRef
-  extract_lets s1 s2 s3 st s4
-  have e1 : Ev s s4 := by
-    simp only [s4, s3, s2, s1]
-    ev_auto
-  refine .trans e1 ?_
-  clear_value s4
-  refine transition_ev _ _ _ ?_
-  intro s5
-  extract_lets s6
-  have e6 : Ev s5 s6 := maybeCancel_ev _ _
-  refine .trans e6 ?_
-  clear_value s6
-  split
-  · extract_lets s7 ppp s8 s9
-    have e7 : Ev s6 s7 := releaseClosedCapacity_ev _ _
-    have e8 : Ev s7 s8 := by simp only [s8]; ev_auto
-    have e9 : Ev s8 s9 := by
-      simp only [s9]
-      exact foldl_ev _ (fun s p => dropPromise_ev s p) _ _
-    exact .trans e7 (.trans e8 e9)
-  · exact .refl _
+  dsimp only
+  refine .trans ?_ (transition_ev _ _ _ ?_)
+  · ev_auto
+  · intro s5
+    split
+    · show Ev s5 (List.foldl _ _ _)
+      have hf : ∀ (s : Streams) (p : Nat), Ev s ((s.modStream p fun st => { st with isPendingAccept := false }).transition p fun s => (s.maybeCancel p, ())).1 :=
+        fun s p => dropPromise_ev s p
+      refine Ev.trans ?_ (foldl_ev _ hf _ _)
+      refine Ev.trans ?_ (modStream_ev _ _ _ ?_)
+      · exact .trans (maybeCancel_ev _ _) (releaseClosedCapacity_ev _ _)
+      · intro _ _; same_tac
+    · exact maybeCancel_ev _ _
 
 -- ===================================================================== recv_headers / recv_push_promise
 
@@ -195,30 +187,31 @@ theorem recvOpen_remote {s s1 : Streams} {id : Nat} {pp : Bool} (h : s.recvOpen 
   have hc : s1.counts = s.counts := by
     have := recvOpen_isServer s id pp; rw [h] at this; exact this
   rw [hc]
-  unfold Streams.recvOpen at h
-  dsimp only at h
   have hsv : ∀ m, (if s.recv.refused.isSome = true then s.panic m else s).counts.isServer = s.counts.isServer := by
     intro m; split
     · rw [panic_counts]
     · rfl
-  split at h
-  · cases h
-  · next hcan =>
-    simp only [hsv, Bool.not_eq_true', Bool.not_eq_false] at hcan
-    unfold Counts.isLocalInit
-    cases hs : s.counts.isServer <;> simp only [hs, Bool.false_eq_true, if_false, if_true] at hcan <;>
-      cases pp <;> simp_all
+  have key : (if s.counts.isServer = true then !(pp || id % 2 == 0) else !(!pp || !(id % 2 == 0))) = true := by
+    cases hcan : (if s.counts.isServer = true then !(pp || id % 2 == 0) else !(!pp || !(id % 2 == 0))) with
+    | true => rfl
+    | false =>
+      exfalso
+      unfold Streams.recvOpen at h
+      simp only [hsv, hcan, Bool.not_false, if_true] at h
+      cases h
+  unfold Counts.isLocalInit
+  cases hs : s.counts.isServer <;> simp only [hs, Bool.false_eq_true, if_false, if_true] at key <;>
+    cases pp <;> simp_all
 
 theorem fresh_new (id a b : Nat) : Fresh (Stream.new id a b) :=
   ⟨rfl, fun q => by cases q <;> rfl, rfl, rfl⟩
 
 theorem recvHeaders_ev (s : Streams) (h : HeadersIn) : Ev s (s.recvHeaders h).1 := by
   unfold Streams.recvHeaders
-  extract_lets id
+  extract_lets id entry f431
   split
   · exact .refl _
-  · extract_lets entry
-    have eE : Ev s entry.1 := by
+  · have eE : Ev s entry.1 := by
       simp only [entry]
       split
       · exact .refl _
@@ -232,11 +225,10 @@ theorem recvHeaders_ev (s : Streams) (h : HeadersIn) : Ev s (s.recvHeaders h).1 
             exact .insert _ (fresh_new _ _ _) (recvOpen_remote heq)
     clear_value entry
     split
-    · next s1 e heq => exact .of_fst_eq heq eE
-    · next s1 heq => exact .of_fst_eq heq eE
-    · next s1 k heq =>
-      refine .trans (.of_fst_eq heq eE) ?_
-      clear heq eE
+    · exact eE
+    · exact eE
+    · refine .trans eE ?_
+      clear eE
       ev_auto
 
 end H2V.Lemmas.ConnCountsP
